@@ -391,6 +391,12 @@ func TestPropExportImport(t *testing.T) {
 				crossRefs++
 			}
 		}
+		movedTop := rapid.IntRange(0, 2).Draw(t, "movedTop") == 0
+		if movedTop {
+			// the top node was moved here: an older, deleted placement exists elsewhere
+			write(t, src, root.id, "inst", data.Points{{Type: data.PointTypeTombstone, Value: 0, Time: g.tick()}, {Type: data.PointTypeNodeType, Text: root.typ}})
+			write(t, src, root.id, "inst", data.Points{{Type: data.PointTypeTombstone, Value: 1, Time: g.tick()}})
+		}
 		g.build(src, root, "holder")
 		// an occasional mirror inside the tree
 		mirrored := false
@@ -521,6 +527,9 @@ func TestPropExportImport(t *testing.T) {
 		cls := []string{"target:" + where}
 		if mirrored {
 			cls = append(cls, "mirrorInTree")
+		}
+		if movedTop {
+			cls = append(cls, "topNodeWasMoved")
 		}
 		if hostile {
 			cls = append(cls, "yamlSignificantText")
